@@ -26,7 +26,7 @@ def files(variant="main"):
     for n, v in (("COLOR_UNSPECIFIED", 0), ("RED", 1)):
         col.value.add(name=n, number=v)
     thing = G.add_message(fd, "Thing", [G.F("name", 1, T.TYPE_STRING), G.F("color", 2, T.TYPE_ENUM, type_name=P + ".Color"),
-                                        G.F("health", 3, T.TYPE_MESSAGE, type_name=P + ".Health"), G.F("extra", 4, T.TYPE_MESSAGE, type_name="." + subpkg + ".Extra"),
+                                        G.F("health", 3, T.TYPE_MESSAGE, type_name=P + ".Health"), G.F("extra_info", 4, T.TYPE_MESSAGE, type_name="." + subpkg + ".Extra"),
                                         G.F("kids", 5, T.TYPE_MESSAGE, label=G.REPEATED, type_name=P + ".Thing"), G.F("opt", 6, T.TYPE_STRING, proto3_optional=True, oneof_index=1),
                                         G.F("ts", 9, T.TYPE_MESSAGE, type_name=".google.protobuf.Timestamp")],
                           resource=("lab.example.com/Thing", "shelves/{shelf}/things/{thing}"))
@@ -34,7 +34,11 @@ def files(variant="main"):
     thing.oneof_decl.add(name="_opt")
     thing.field.append(G.F("a", 7, T.TYPE_STRING, oneof_index=0))
     thing.field.append(G.F("b", 8, T.TYPE_INT32, oneof_index=0))
-    nested = G.add_message(thing, "Part", [G.F("p", 1, T.TYPE_STRING)])
+    # a nested message whose field is named like a sibling module this file imports (`extra`), followed by a field that needs that module,
+    # and one named `proto` (the alias of the proto-plus import): both names occur nowhere at the top level of the file
+    nested = G.add_message(thing, "Part", [G.F("p", 1, T.TYPE_STRING), G.F("extra", 2, T.TYPE_MESSAGE, type_name="." + subpkg + ".Extra"),
+                                           G.F("more", 3, T.TYPE_MESSAGE, type_name="." + subpkg + ".Extra"), G.F("proto", 4, T.TYPE_STRING),
+                                           G.F("after_proto", 5, T.TYPE_INT32)])
     e = thing.nested_type.add(name="LabelsEntry")
     e.options.map_entry = True
     e.field.append(G.F("key", 1, T.TYPE_STRING))
@@ -57,11 +61,16 @@ def files(variant="main"):
     up = G.add_service(fd, "Uploader")
     m(up, "Upload", P + ".Thing", P + ".Thing", client_streaming=True)
     m(up, "Ping", P + ".GetThingRequest", P + ".Thing", http=("get", "/v1/{name=shelves/*/things/*}:ping"))
+    # a target file with a service and no top-level message or enum
+    adm = G.new_file("acme/lab/v1/admin.proto", PKG, deps=G.STD_DEPS + ["acme/lab/v1/lab.proto"])
+    ad = G.add_service(adm, "Admin")
+    m(ad, "PingAdmin", P + ".GetThingRequest", P + ".Thing", http=("get", "/v1/{name=shelves/*/things/*}:admin"))
     if variant == "dup_leaf":
         # method_signature with two dotted fields whose leaf names coincide
         G.add_message(fd, "PairRequest", [G.F("a", 1, T.TYPE_MESSAGE, type_name=P + ".Thing"), G.F("b", 2, T.TYPE_MESSAGE, type_name=P + ".Thing")])
         m(svc, "Pair", P + ".PairRequest", P + ".Thing", http=("post", "/v1/pair"), body="*", signatures=["a.name,b.name"])
     out.append(fd)
+    out.append(adm)
     return out
 
 
@@ -173,7 +182,7 @@ def one_config(name):
                 importlib.import_module(top + ".extras" if False else top)
             except Exception as e:      # noqa
                 failures.append(dict(label, what="sub-package does not import", error=repr(e)[:200]))
-        for svc in ("Lab", "Uploader"):
+        for svc in ("Lab", "Uploader", "Admin"):
             n += 1
             client = getattr(pkg, svc + "Client", None) if name != "ads" else None
             if name == "ads":
